@@ -62,8 +62,40 @@ if M.flavour_of("N0K") != "K":
 
 def dag_shapes(tier):
     """-> (abstract shapes, registration ops), same enumeration as the component library of verif_app."""
-    abstract = G.shapes(tier)
-    return abstract, [G.ops_of(sh) for sh in abstract]
+    abstract = list(G.shapes(tier))
+    ops = [G.ops_of(sh) for sh in abstract]
+    for sh in singleton_source_variants(tier):
+        o = G.ops_of(dict(sh, nodes=[dict(nd, lc="R") for nd in sh["nodes"]]))
+        for nd, op in zip(sh["nodes"], o):
+            if nd["lc"] == "S":
+                op["lc"] = "singleton"
+        abstract.append(sh)
+        ops.append(o)
+    return abstract, ops
+
+
+def singleton_source_variants(tier):
+    """Members whose contended values enter the handler's call graph as INPUT PARAMETERS instead of being computed in
+    it: every all-request-scoped shape of the thorough enumeration whose clone-if-necessary values are exactly its
+    shared sources, with those sources registered as singletons (same components, lifecycle only).
+    quick: the shapes with >= 2 such sources and 4 values (the mutual move/borrow diamonds) plus the <= 3-value shapes;
+    thorough: additionally every 5-value shape with >= 2 such sources and every 4-value shape with one."""
+    out = []
+    for sh in G.shapes("thorough"):
+        if sh["order"] != "a" or any(nd["lc"] != "R" for nd in sh["nodes"]):
+            continue
+        src = [i for i, nd in enumerate(sh["nodes"]) if not nd["ins"] and nd["kind"] == "C"]
+        if not src or set(src) != {i for i, nd in enumerate(sh["nodes"]) if nd["kind"] == "C"}:
+            continue
+        if any(nd["kind"] == "K" for nd in sh["nodes"]):
+            continue
+        n = len(sh["nodes"])
+        if tier == "quick" and not ((len(src) >= 2 and n == 4) or n <= 3):
+            continue
+        if tier == "thorough" and not (len(src) >= 2 or n <= 4):
+            continue
+        out.append(dict(sh, nodes=[dict(nd, lc="S" if i in src else "R") for i, nd in enumerate(sh["nodes"])]))
+    return out
 
 
 def compact_shape(sh):
@@ -72,7 +104,7 @@ def compact_shape(sh):
     for i, nd in enumerate(sh["nodes"]):
         ins = ",".join(("&" if m == "r" else "") + G.type_name(j, sh["nodes"][j]["kind"]) for j, m in
                        (sorted(nd["ins"]) if sh["order"] == "a" else sorted(nd["ins"])[::-1]))
-        attr = ("+cin" if nd["kind"] == "C" else "") + ("+transient" if nd["lc"] == "T" else "")
+        attr = ("+cin" if nd["kind"] == "C" else "") + ("+transient" if nd["lc"] == "T" else "") + ("+singleton" if nd["lc"] == "S" else "")
         parts.append(f"{G.type_name(i, nd['kind'])}{attr}({ins})")
     h = ",".join(("&" if m == "r" else "") + G.type_name(j, sh["nodes"][j]["kind"]) for j, m in sh["h"])
     return "; ".join(parts) + f"; handler({h})"
